@@ -283,3 +283,98 @@ func (in *interp) lookupInterface(short string) *types.Interface {
 	}
 	return nil
 }
+
+// deepEqTerm: structural equality as one Bool term (nil and empty containers are equal).
+func (in *interp) deepEqTerm(a, b value, T types.Type, depth int) *term {
+	if depth > 14 {
+		return tTrue
+	}
+	T = types.Unalias(T)
+	if na, ok := a.(native); ok {
+		nb, ok2 := b.(native)
+		return mkBool(ok2 && nativeDeepEqual(na, nb))
+	}
+	switch u := T.Underlying().(type) {
+	case *types.Basic:
+		return in.equalsT(T, a, b)
+	case *types.Pointer:
+		pa, pb := a.(*value), b.(*value)
+		if (pa == nil) != (pb == nil) {
+			return tFalse
+		}
+		if pa == nil || pa == pb {
+			return tTrue
+		}
+		return in.deepEqTerm(*pa, *pb, u.Elem(), depth+1)
+	case *types.Struct:
+		sa, sb := a.(structure), b.(structure)
+		var cs []*term
+		for i := 0; i < u.NumFields(); i++ {
+			c := in.deepEqTerm(sa[i], sb[i], u.Field(i).Type(), depth+1)
+			if c.isConst() && !c.b {
+				return tFalse
+			}
+			cs = append(cs, c)
+		}
+		return tAnd(cs...)
+	case *types.Slice:
+		if _, ok := a.(*symBytes); ok {
+			return tEq(in.rs(anyStrTerm(a)), in.rs(anyStrTerm(b)))
+		}
+		if _, ok := b.(*symBytes); ok {
+			return tEq(in.rs(anyStrTerm(a)), in.rs(anyStrTerm(b)))
+		}
+		la, lb := a.([]value), b.([]value)
+		if len(la) != len(lb) {
+			return tFalse
+		}
+		var cs []*term
+		for i := range la {
+			c := in.deepEqTerm(la[i], lb[i], u.Elem(), depth+1)
+			if c.isConst() && !c.b {
+				return tFalse
+			}
+			cs = append(cs, c)
+		}
+		return tAnd(cs...)
+	case *types.Array:
+		la, lb := a.(array), b.(array)
+		var cs []*term
+		for i := range la {
+			cs = append(cs, in.deepEqTerm(la[i], lb[i], u.Elem(), depth+1))
+		}
+		return tAnd(cs...)
+	case *types.Map:
+		ma, mb := a.(*omap), b.(*omap)
+		if ma.len() != mb.len() {
+			return tFalse
+		}
+		if ma == nil {
+			return tTrue
+		}
+		var cs []*term
+		for _, e := range ma.ents {
+			if e.deleted {
+				continue
+			}
+			o := in.mapFind(mb, e.k)
+			if o == nil {
+				return tFalse
+			}
+			cs = append(cs, in.deepEqTerm(e.v, o.v, u.Elem(), depth+1))
+		}
+		return tAnd(cs...)
+	case *types.Interface:
+		ia, ib := a.(iface), b.(iface)
+		if !sameType(ia.t, ib.t) {
+			return tFalse
+		}
+		if ia.t == nil {
+			return tTrue
+		}
+		return in.deepEqTerm(ia.v, ib.v, ia.t, depth+1)
+	case *types.Signature:
+		return mkBool(isNilRef(a) == isNilRef(b))
+	}
+	panic(unsupported(fmt.Sprintf("deepEqTerm on %s", T)))
+}
